@@ -83,7 +83,7 @@ def cmd_import(root):
 
 def run_demo(sid):
     d = os.path.join(SEEDED, sid, "demo")
-    p = sh(["sh", os.path.join(d, "demo.sh"), REPO], cwd=d, timeout=600)
+    p = sh(["bash", os.path.join(d, "demo.sh"), REPO], cwd=d, timeout=600)
     return p.returncode, p.stdout
 
 
